@@ -400,6 +400,9 @@ class Machine:
         if r is None:
             st.events.append(('lost-write', fr.key, place))
             return
+        if r[0][0] == 'V':
+            # a store into memory that outlives this function (reached through an input or an opaque call's result)
+            st.events.append(('store', r[0][1] + "".join(".%s" % (x[1],) for x in r[1] if x[0] == 'f'), self.describe(st, v), fr.key))
         self.write(st, r[0], r[1], v)
 
     # ---------------------------------------------------------------- operands / rvalues
@@ -715,10 +718,100 @@ class Machine:
                 return bool(ok0)
         return True   # uninterpreted: kept in st.conds
 
+    def bounds(self, st, e, depth=0):
+        """(lo, hi) of an expression by interval arithmetic over the value sets, or None"""
+        if depth > 12:
+            return None
+        k = e[0]
+        if k == 'c':
+            return e[1], e[1]
+        if k == 's':
+            d = st.doms.get(e, sx.dom_full(*sx.ty_of(e)))
+            if sx.dom_empty(d):
+                return None
+            return sx.dom_min(d), sx.dom_max(d)
+        if e in st.doms:
+            d = st.doms[e]
+            if not sx.dom_empty(d):
+                return sx.dom_min(d), sx.dom_max(d)
+        if k == 'cast':
+            b = self.bounds(st, e[1], depth + 1)
+            if b is None:
+                return None
+            t = sx.dom_full(e[2], e[3])
+            if b[0] >= sx.dom_min(t) and b[1] <= sx.dom_max(t):
+                return b
+            return sx.dom_min(t), sx.dom_max(t)
+        if k == 'bin':
+            a = self.bounds(st, e[2], depth + 1)
+            b = self.bounds(st, e[3], depth + 1)
+            if a is None or b is None:
+                return None
+            op = e[1]
+            t = sx.dom_full(e[4], e[5])
+            r = None
+            if op == 'Add':
+                r = (a[0] + b[0], a[1] + b[1])
+            elif op == 'Sub':
+                r = (a[0] - b[1], a[1] - b[0])
+            elif op == 'Mul':
+                c = [a[0] * b[0], a[0] * b[1], a[1] * b[0], a[1] * b[1]]
+                r = (min(c), max(c))
+            elif op == 'Div' and b[0] > 0 and a[0] >= 0:
+                r = (a[0] // b[1], a[1] // b[0])
+            elif op == 'Rem' and b[0] > 0 and a[0] >= 0:
+                r = (0, b[1] - 1)
+            elif op == 'BitAnd' and a[0] >= 0 and b[0] >= 0:
+                r = (0, min(a[1], b[1]))
+            elif op == 'Shr' and a[0] >= 0 and b[0] >= 0 and b[1] < 64:
+                r = (a[0] >> b[1], a[1] >> b[0])
+            if r is None:
+                return sx.dom_min(t), sx.dom_max(t)
+            if r[0] < sx.dom_min(t) or r[1] > sx.dom_max(t):
+                return sx.dom_min(t), sx.dom_max(t)
+            return r
+        bits, signed = sx.ty_of(e)
+        t = sx.dom_full(bits, signed)
+        return sx.dom_min(t), sx.dom_max(t)
+
+    def overflow_impossible(self, st, e):
+        """e = ('ovf', op, a, b, bits, signed): True when interval arithmetic or a recorded comparison excludes the overflow"""
+        op, a, b, bits, signed = e[1], e[2], e[3], e[4], e[5]
+        ba = self.bounds(st, a)
+        bb = self.bounds(st, b)
+        t = sx.dom_full(bits, signed)
+        if ba is not None and bb is not None:
+            if op == 'Add':
+                r = (ba[0] + bb[0], ba[1] + bb[1])
+            elif op == 'Sub':
+                r = (ba[0] - bb[1], ba[1] - bb[0])
+            else:
+                c = [ba[0] * bb[0], ba[0] * bb[1], ba[1] * bb[0], ba[1] * bb[1]]
+                r = (min(c), max(c))
+            if r[0] >= sx.dom_min(t) and r[1] <= sx.dom_max(t):
+                return True
+        if op == 'Sub' and not signed:
+            # a - b cannot underflow when the path knows a > b or a >= b  (the guard in front of an error message's difference)
+            def strip(x):
+                return x
+            for ce, truth in st.conds:
+                if ce[0] != 'cmp':
+                    continue
+                cop, ca, cb = ce[1], ce[2], ce[3]
+                if not truth:
+                    cop = {'Eq': 'Ne', 'Ne': 'Eq', 'Lt': 'Ge', 'Ge': 'Lt', 'Gt': 'Le', 'Le': 'Gt'}[cop]
+                if (ca == a and cb == b and cop in ('Gt', 'Ge')) or (ca == b and cb == a and cop in ('Lt', 'Le')):
+                    return True
+        return False
+
     def can_be(self, st, e, truth):
         """Is (e == truth) feasible under the current value sets?  (over-approximate: True when unknown)"""
         if sx.is_const(e):
             return bool(sx.cval(e)) == bool(truth)
+        if e[0] == 'ovf' and truth and self.overflow_impossible(st, e):
+            return False
+        if e[0] == 'un' and e[1] == 'Not' and e[2][0] == 'ovf' and not truth and self.overflow_impossible(st, e[2]):
+            return False
         s2 = State()
         s2.doms = dict(st.doms)
         return self.assume(s2, e, truth)
@@ -1138,7 +1231,7 @@ class Machine:
                 if not ok:
                     continue
                 for ev in evs:
-                    if ev[0] == 'range-advance':
+                    if ev[0] in ('range-advance', 'vec-set'):
                         self.write(s2, ev[1], ev[2], ev[3])
                     else:
                         s2.events.append(ev)
